@@ -2155,6 +2155,29 @@ TSTree *ts_parser_parse(
         self->lexer.included_ranges, self->lexer.included_range_count,
         &self->included_range_differences
       );
+      // A token that ends where an included range ends has looked at the start
+      // of the next included range. When a range is added or removed behind a
+      // gap, the text that follows the preceding range changes as well, so let
+      // each difference begin where that preceding range ends.
+      for (unsigned i = 0; i < self->included_range_differences.size; i++) {
+        TSRange *difference = array_get(&self->included_range_differences, i);
+        const TSRange *preceding_range = NULL;
+        for (unsigned j = 0; j < old_tree->included_range_count + self->lexer.included_range_count; j++) {
+          const TSRange *range = j < old_tree->included_range_count
+            ? &old_tree->included_ranges[j]
+            : &self->lexer.included_ranges[j - old_tree->included_range_count];
+          if (
+            range->end_byte <= difference->start_byte &&
+            (!preceding_range || range->end_byte > preceding_range->end_byte)
+          ) {
+            preceding_range = range;
+          }
+        }
+        if (preceding_range) {
+          difference->start_byte = preceding_range->end_byte;
+          difference->start_point = preceding_range->end_point;
+        }
+      }
       reusable_node_reset(&self->reusable_node, old_tree->root);
       LOG("parse_after_edit");
       LOG_TREE(self->old_tree);
